@@ -4,7 +4,7 @@ References: mc.ref.dsa (FIPS 186-4 4.6/4.7, RFC 6979), mc.ref.ec (ECDSA, RFC 697
 """
 import hashlib
 
-from ..common import Acc, exc_site, short, seeded, seeded_int, asc
+from ..common import Acc, exc_site, short, seeded_int
 from ..ref import dsa as RD
 from ..ref import ec as REC
 from ..ref import der as D
@@ -208,9 +208,13 @@ def dss_sign_case(kd, mode, enc, hn, msg, tape, acc):
             acc.observe("DSA fips-186-3 sign raises ValueError when the nonce drawn is k = 1 (FIPS 186-4 allows 1 <= k <= q-1)")
             return None
         r, s = ref_sign(kd, digest, k)
+    if out[0] in ("ValueError", "TypeError"):
+        acc.observe("DSS sign refuses (%s: %s): %s %s/%s/%s" % (out[0], out[1], A, kd["name"], MODE[mode], hn))
+        return None
     if out[0] != "accept":
         acc.violation("C04/dss/%s/sign-raises/%s@%s" % (A, out[0], exc_site(out[1])), pre + ": sign raised %s: %s" % (out[0], out[1]), case)
         return None
+    acc.count("signatures_ok")
     sig = out[1]
     # the output must be a well-formed encoding
     try:
@@ -308,8 +312,8 @@ sig = bytes.fromhex("%s")
 try:
     DSS.new(key.public_key(), %r, %r).verify(h, sig)
     print("library: accepted")
-except ValueError as e:
-    print("library: ValueError", e)
+except Exception as e:
+    print("library:", type(e).__name__, e)
 print("standard: %s")
 '''
 
@@ -554,8 +558,12 @@ def worker(shards):
             # ("cand", key, mode, enc, hash, message, flips | None)
             _, _, mode, enc, hn, mn, flips = sh
             msg = msgs[mn]
-            digest = B.ref_digest(hn, msg)
-            k, r, s = ref_det(kd, digest, B.HASHES[hn][4])
+            # the authentic signature is the library's own RFC 6979 output (compared with the reference on the way)
+            r0 = dss_sign_case(kd, "det", enc, hn, msg, None, acc)
+            acc.count("signatures")
+            if r0 is None:
+                continue
+            _, r, s = r0
             n = 0
             for tag, cand in dss_candidates(kd, enc, r, s, tuple(flips) if flips else None):
                 _tally(acc, kd, mode, enc, tag, *dss_verify_case(kd, mode, enc, hn, msg, cand, tag, acc, demand=(tag == "authentic")))
